@@ -62,7 +62,7 @@ func checkC06(e *Env) {
 	// NewVerifier: every vouched subset is verified, failure aborts
 	nv := e.fn("bundle/signature.NewVerifier")
 	forAllIterations(e, "FORALL", nv, "param:sigs.VouchedSubsets", noCfg,
-		gate.CallOK("N.each", "signature.verifyVouchedSubset", "param:sigs.VouchedSubsets[_]", "param:sigs.Authorities", "param:verificationTime", "param:ver"))
+		gate.CallOK("N.each", "signature.verifyVouchedSubset", "param:sigs.VouchedSubsets[rangeidx]", "param:sigs.Authorities", "param:verificationTime", "param:ver"))
 	forAllIterations(e, "FORALL", nv, "param:sigs.VouchedSubsets", noCfg,
 		gate.Gate{Key: "N.keep", Desc: "the verified subset is appended to the verifier's list",
 			Instr: func(in ssa.Instruction) bool {
@@ -97,7 +97,7 @@ func checkC06(e *Env) {
 	// findResponseHashes: returns the entry for exactly the requested URL together with that subset's authority
 	frh := e.fn("bundle/signature.(*Verifier).findResponseHashes")
 	e.requireGates("GATE", frh, gate.Outcome{Kind: gate.NonNil, Idx: 0}, noCfg,
-		gate.BoolVal("F.lookup", "ok:param:v.VerifiedSignedSubsets[_].SignedSubset.SubsetHashes[param:requestUrl]", true))
+		gate.BoolVal("F.lookup", "ok:param:v.VerifiedSignedSubsets[rangeidx].SignedSubset.SubsetHashes[param:requestUrl]", true))
 
 	// Signer
 	us := e.fn("bundle/signature.(*Signer).UpdateSignatures")
